@@ -313,6 +313,7 @@ def repeat_script(w, st, res):
     w.comment(P(w, 2), CONTRIB, '@robot after_pull_request=%d' % P(w, 1))
     if rng.random() < 0.5:
         w.comment(P(w, 3), CONTRIB, '@robot unanimity')
+    typo = rng.random() < 0.5      # a mistyped option: every evaluation is blocked, but told only once
 
     def thrice(p):
         for _ in range(3):
@@ -331,6 +332,10 @@ def repeat_script(w, st, res):
 
     everyone()
     compare_all()
+    if typo:
+        w.comment(P(w, 2), ADMIN, '@robot bypass_peer_aproval')
+        thrice(2)
+        w.delete_comment(P(w, 2), '@robot bypass_peer_aproval')
     approve(w, 1)
     approve(w, 3)
     everyone()
